@@ -1230,6 +1230,47 @@ func (env *specEnv) region(items []ast.Expr, all bool) *Region {
 				case "mapAt":
 					r.addCell(u, env.mapCell(call.Args[0], call.Args[1]), types.NewInterfaceType(nil, nil))
 					continue
+				case "anyFld": // the field x.f of EVERY object of x's type (type-based over-approximation); only the types of the argument are used
+					var sel *ast.SelectorExpr
+					arg := call.Args[0]
+					for {
+						if p, ok := arg.(*ast.ParenExpr); ok {
+							arg = p.X
+							continue
+						}
+						break
+					}
+					sel, _ = arg.(*ast.SelectorExpr)
+					selection := env.info().Selections[sel]
+					if sel == nil || selection == nil || selection.Kind() != types.FieldVal || len(selection.Index()) != 1 {
+						panic("anyFld needs a direct field selection x.f")
+					}
+					rt := selection.Recv()
+					if pt, ok := rt.Underlying().(*types.Pointer); ok {
+						rt = pt.Elem()
+					}
+					stt := structOf(rt)
+					fid := u.E.fieldID(stt, selection.Index()[0])
+					ft := stt.Field(selection.Index()[0]).Type()
+					for _, lf := range u.leaves(ft, nil) {
+						if lf.kind == "array" {
+							panic("anyFld over an array field")
+						}
+						path := lf.path
+						r.add(lf.kind, func(x *Term) *Term {
+							cond := c.True
+							cur := x
+							for k := len(path) - 1; k >= 0; k-- {
+								cond = c.And(cond, c.FldIdIs(cur, path[k]))
+								if cond.IsFalse() {
+									return cond
+								}
+								cur = c.FldBase(cur)
+							}
+							return c.And(cond, c.FldIdIs(cur, fid))
+						})
+					}
+					continue
 				case "anyElems": // the elements of EVERY array with the element type of the given slice (a type-based over-approximation)
 					var et types.Type
 					switch t := env.typeOf(call.Args[0]).Underlying().(type) {
